@@ -112,6 +112,15 @@ def check(ctx):
                     marks[(b, i)] = "clr"
             for b, c in sends:
                 marks[(b, None)] = "send"
+            # the cursor step may live in a private helper: a call whose mod-set contains the cursor is an advance
+            from analysis.modset import ModSets
+            ms_ = ModSets(P)
+            for b, c in call_sites(f):
+                h = P.get(CR, c.get("callee") or "")
+                if h is not None and (b, None) not in marks:
+                    w_ = ms_.of(h) or set()
+                    if any(p_ and p_[-1] == "cursor" for p_ in w_):
+                        marks[(b, None)] = "adv"
             g = GuardAnalysis(f, P, marks=marks)
             bad = []
             for rb in f.return_blocks:
